@@ -54,6 +54,8 @@ var integer32 = []*instructionType{
 		// FIXME: Find a way how to represent those jump targets.
 		effects: func(i instruction) []expr.Effect {
 			target := regImmOp(binOpFunc(expr.Add), immTypeI, i, width32)
+			// The least-significant bit of the target is always cleared.
+			target = exprtools.BitAnd(target, expr.ConstFromUint(^uint32(1)), width32)
 			// Address of following instruction.
 			following := expr.ConstFromUint(uint32(i.addr) + 4)
 			return []expr.Effect{
